@@ -840,7 +840,45 @@ def c09_values(base, tier):
     return sorted(s, key=lambda x: (abs(x), x < 0))
 
 
+def fragile_rationals():
+    """lowest-terms p/q where one part has an interior zero limb and the other is at least two limbs longer"""
+    from math import gcd
+    F = (1 << 32) - 1
+    zs = [R.from_limbs(v) for v in ([F, 0, 1], [5, 0, 3], [F, 0, F], [1, 0, 0, 1], [0xf2e2054d, 0, 0x25795c19], [F, 0, 0, F])]
+    ls = [R.from_limbs(v) for v in ([F] * 5, [1, F, F, F, F], [F, F, F, F, 1], [7, 0, F, F, F, 3], [F] * 6,
+                                    [0x9abcdef1, 0x12345678, F, 0x80000000, 0x7fffffff], [3, F, 2, F, 1, F])]
+    out = []
+    for z in zs:
+        for l in ls:
+            for (p, q) in ((l, z), (z, l), (-l, z), (l * 3 + 1, z), (l, z * 7 + 2)):
+                g = gcd(p, q)
+                out.append(Fraction(p // g, q // g))
+    return out
+
+
+@guard_task('C09', 'num')
+def c09_fragile(vals):
+    st = Stats()
+    sh = shim()
+    reqs = []
+    for v in vals:
+        reqs += [('num', 'bset', 0, R.lit(v.numerator)), ('num', 'bset', 1, R.lit(v.denominator)), ('num', 'nbig', 0, 0, 1),
+                 ('num', 'nobs', 0), ('num', 'nrt', 0), ('num', 'nstr', 1, hx(R.num_text(v))), ('num', 'nobs', 1)]
+    resps = sh.batch(reqs)
+    for k, v in enumerate(vals):
+        st.inc('transitions', 3)
+        obs, rt, back = resps[7 * k + 3], resps[7 * k + 4], resps[7 * k + 6]
+        exp = exp_num_obs(v)
+        if obs != exp or rt != '%s|1|1|0' % R.num_text(v) or back != exp:
+            st.violate(Violation('C09', 'num', 'num:roundtrip:multi-limb', {'kind': 'num_fragile', 'value': R.num_text(v)},
+                                 exp, '%s ; %s ; %s' % (obs, rt, back)))
+    st.inc('closure_total', len(vals))
+    return st
+
+
 def _c09_task(kind, a, b):
+    if kind == 'fragile':
+        return c09_fragile(a)
     if kind == 'base':
         return c09_base(a, c09_values(a, b))
     return num_closure('C09', a, b, roundtrip=True)
@@ -851,6 +889,9 @@ def run_c09(tier):
     st = Stats()
     tasks = [('base', b, tier) for b in range(2, 37)]
     tasks.append(('closure', CLOSURE_SEEDS if tier == 'quick' else CLOSURE_SEEDS_T, True))
+    fr = fragile_rationals()
+    for i in range(0, len(fr), 30):
+        tasks.append(('fragile', fr[i:i + 30], None))
     collect(st, pmap(_c09_task, tasks))
     cov = {
         'states': st.n.get('base_values', 0) + st.n.get('closure_total', 0),
@@ -961,6 +1002,12 @@ def replay(case):
     if k == 'big_from_string':
         v = int(case['value'])
         return exp_big_obs(v), sh.call('num', 'bstr', 0, case['base'], R.to_base(v, case['base']))
+    if k == 'num_fragile':
+        v = R.parse_num_text(case['value'])
+        st = c09_fragile([v])
+        if st.violations:
+            return st.violations[0].expected, st.violations[0].observed
+        return 'round trip ok', 'round trip ok'
     if k == 'big_base_arith':
         sh.call('num', 'bset', 0, R.lit(-5))
         sh.call('num', 'bset', 1, R.lit(5))
